@@ -217,6 +217,9 @@ def expected_results(c: rs.SysCase) -> list:
             armed.discard(r[1]); out.append("-"); continue
         if r[0] == "badp":
             out.append("ERR"); continue
+        if r[0] == "repl":          # the declaration of a variable is replaced: the meaning is the new system's from here on
+            c = rs.derive(c, vars=[(r[2] if j == r[1] else w) for j, w in enumerate(c.vars)])
+            out.append("-"); continue
         if r[0] in ("del", "set"):
             out.append("?"); continue
         if r[0] == "get":
@@ -271,6 +274,14 @@ def expected_results(c: rs.SysCase) -> list:
         except RecursionError:
             out.append("?")
     return out
+
+
+def final_case(c: rs.SysCase) -> rs.SysCase:
+    """the declaration after every replacement of the request sequence"""
+    for r in c.reqs:
+        if r[0] == "repl":
+            c = rs.derive(c, vars=[(r[2] if j == r[1] else w) for j, w in enumerate(c.vars)])
+    return c
 
 
 def canon_equal(case: Case, impl_out: str, model_out: str) -> bool:
